@@ -185,7 +185,8 @@ def observe(x):
         cols = {}
         for c in x.header:
             a = x.columns[c]
-            cols[c] = [a.dtype.kind if a.dtype.kind in "OUSb" else "n", num(a)]
+            # text columns: the item size is observed too (it is what the array costs; a round trip must not inflate it)
+            cols[c] = [a.dtype.str.lstrip("<>|=") if a.dtype.kind == "U" else a.dtype.kind if a.dtype.kind in "OSb" else "n", num(a)]
         return dict(kind="table", header=list(x.header), cols=cols, title=x.title, legend=x.legend, index_name=x.index_name,
                     shape=list(x.shape), str=str(x), fmt=num(dict(x._column_templates) if isinstance(x._column_templates, dict) else None) if not x._column_templates or all(isinstance(v, str) for v in x._column_templates.values()) else "callable",
                     digits=x._digits, space=x.space if isinstance(x.space, int) else len(x.space), missing=x._missing_data, max_width=x._max_width)
@@ -713,7 +714,10 @@ def case_tree(p):
             if isinstance(e, KeyError) and e.args and e.args[0] == k:
                 raise
             log.append(type(e).__name__)
-    return dict(cls=prov(t), obs=observe(t), routes=routes_for(t), oplog=log)
+    r = dict(cls=prov(t), obs=observe(t), routes=routes_for(t), oplog=log)
+    if r["obs"].get("names_ok"):
+        r["enc"] = _route(lambda: enc_tree(t))
+    return r
 
 
 def case_table(p):
@@ -785,7 +789,7 @@ def case_table(p):
         # the history left a table that cannot even be displayed (e.g. an index column made non-unique by appended()):
         # not a state the round-trip property talks about
         return dict(cls=prov(t), obs={"kind": "unobservable", "why": str(e)[:100]}, routes={}, oplog=log)
-    return dict(cls=prov(t), obs=o, routes=routes_for(t), oplog=log)
+    return dict(cls=prov(t), obs=o, routes=routes_for(t), oplog=log, enc=_route(lambda: enc_generic(t)))
 
 
 def case_darr(p):
@@ -852,7 +856,10 @@ def case_darr(p):
             log.append(type(e).__name__)
     if not hasattr(t, "to_rich_dict"):
         return dict(cls=prov(t), obs={"kind": "scalar", "v": num(t)}, routes={}, oplog=log)
-    return dict(cls=prov(t), obs=observe(t), routes=routes_for(t), oplog=log)
+    r = dict(cls=prov(t), obs=observe(t), routes=routes_for(t), oplog=log)
+    if type(t).__name__ == "DictArray":
+        r["enc"] = _route(lambda: enc_generic(t))
+    return r
 
 
 def case_alpha(p):
@@ -1070,7 +1077,10 @@ def case_result(p):
         x.observed = hyp(p["observed"])
         for i, ms in enumerate(p["reps"]):
             x.add_to_null(hyp(ms))
-    return dict(cls=prov(x), obs=observe(x), routes=routes_for(x), oplog=log)
+    r = dict(cls=prov(x), obs=observe(x), routes=routes_for(x), oplog=log)
+    if k == "nc":
+        r["enc"] = _route(lambda: enc_generic(x))
+    return r
 
 
 def build_value(v):
@@ -1186,6 +1196,39 @@ def _import_all():
             importlib.import_module(m.name)
         except Exception:  # noqa: BLE001
             continue
+
+
+def enc_generic(x):
+    """JSON-level rich dict and the rich dict of what reads back (or the exception), for the Coq correspondence"""
+    from cogent3.util.deserialise import deserialise_object
+
+    rd = json.loads(x.to_json())
+    try:
+        y = deserialise_object(json.loads(json.dumps(rd)))
+        after = json.loads(y.to_json())
+    except Exception as e:  # noqa: BLE001
+        after = {"exc": exc_code(e), "msg": f"{type(e).__name__}: {str(e)[:120]}"}
+    return dict(rd=rd, after=after)
+
+
+def enc_tree(t):
+    from cogent3.util.deserialise import deserialise_object
+
+    rd = json.loads(t.to_json())
+    y = deserialise_object(json.loads(json.dumps(rd)))
+    ids = {}
+
+    def lid(v):
+        if v is None:
+            return None
+        return ids.setdefault(repr(float(v)), len(ids) + 1)
+
+    def struct(n):
+        return [n.name, lid(getattr(n, "length", None)), [struct(c) for c in n.children]]
+
+    before = struct(t)
+    return dict(tree=before, newick=rd["newick"], attrs=[[k, lid((v or {}).get("length"))] for k, v in rd["edge_attributes"].items()],
+                after=struct(y))
 
 
 def case_inventory(p):
